@@ -18,7 +18,7 @@ CLAIMED = {
         text='(1) compute_a_and_b: the eight propagator coefficients produced by the REAL code equal, as rational functions of (xi, w, dt, sqrt(1-xi^2), exp, sin, cos), the coefficients of the exact solution of u\'\'+2 xi w u\'+w^2 u = f0+(f1-f0)t/dt '
              '(closed form taken from the statement; polynomial identities discharged by z3 NRA with the transcendental applications generalised to atoms). (2) nigam_and_jennings_response, verified MODULARLY against that contract with a loop invariant, '
              'for symbolic record length and symbolic number of periods: shapes, zero initial conditions, u/v advance by the exact one-step solution at every sample, third series = -(2 xi w v + w^2 u), leading T=0 row (zero u, v; sign-flipped record), '
-             'w*T = 6.2831853 with |6.2831853-2pi| <= 1.2e-9*2pi, inputs not written. (3) both public entry points (response_series, AccSignal.response_series) satisfy the same postconditions. (4, thorough) Lean 4/Mathlib: the closed form satisfies the ODE and the initial conditions.',
+             'w*T = 6.2831853 with |6.2831853-2pi| <= 1.2e-9*2pi, inputs not written. (3) both public entry points (response_series, AccSignal.response_series) satisfy the same postconditions, the object-level one also when the object has already answered an earlier request with any other damping. (4, thorough) Lean 4/Mathlib: the closed form satisfies the ODE and the initial conditions.',
         note='The floating-point tolerance clause (1e-6 + 5e-8*duration/T + eps/(w dt)^3) is not decided (A3). Uniqueness of ODE solutions / concatenation of the per-step solutions (Picard-Lindelof) is cited, not mechanised (A5).',
         ref='DESIGN.md 7 C01'),
     'C02': dict(
@@ -27,7 +27,7 @@ CLAIMED = {
         note='The induction over the m sub-steps that turns the flow identity into refinement invariance is stated, not mechanised. The "checkable to 1e-10" clause is about floating point (A3).',
         ref='DESIGN.md 7 C02'),
     'C03': dict(
-        text='Modular (over the C01 contract) unbounded proofs: absmax = max|.| (bound + attained, 1-D and per row); pseudo_response_spectra / true_response_spectra for array, list and tuple period containers, with and without a leading 0: '
+        text='Modular (over the C01 contract) unbounded proofs: absmax = max|.| (bound + attained, 1-D and per row); pseudo_response_spectra / true_response_spectra for array, list and tuple period containers of float AND integer elements, with and without a leading 0: '
              'S_d = max|u|, S_v = w S_d / max|v|, S_a = w^2 S_d / max|a_total| above 6 dt and PGA below, T=0 entries, non-negativity, one entry per period, response computed for exactly this record/step/periods/damping; undamped true S_a equals pseudo S_a to 3e-9; '
              'AccSignal.gen_response_spectrum: integration step <= max(T_min/20, dt/min_dt_ratio), dt an integer multiple of it, every original sample retained in the integrated record, periods/damping passed, s_a/s_v/s_d are that computation; energy spectra equal their defining sums.',
         note='Input energy non-negative at record end: false for the rectangle sum (known finding K1, printed as KNOWN-FINDING). Finiteness is outside exact arithmetic (A3). calc_asi / calc_vsi wiring not under contract.',
@@ -47,6 +47,26 @@ CLAIMED = {
         note='Part (b) is bounded, not proved (the alias rule itself is size independent, but the run is at concrete sizes). scipy.fftpack.fft(overwrite_x=True) effect contract: may write x only if x is a complex ndarray (observed on scipy 1.18.1). '
              'Integer-dtype AccSignal in-place baseline corrections raise UFuncTypeError before modifying anything (recorded in DESIGN.md, not a listed clause).',
         ref='DESIGN.md 7 C05'),
+    'C06': dict(
+        text='Unbounded (symbolic record length, dt, p2_plus, n): Signal/AccSignal.gen_fa_spectrum / fa_spectrum / fa_frequencies (default, p2_plus in 0..3, explicit even and odd n, lazy read; from a fresh object AND from an object that already holds the spectrum of an earlier request with any other length) and the array-level generate_fa_spectrum / calc_fa_spectrum (padded, unpadded, p2_plus, n) make exactly one DFT call of length N on the record zero-padded to N, N as stated in the property, return dt*DFT[k] for k < floor(N/2) on the grid k/(N*dt), inputs not written; the DFT kernel itself is an uninterpreted function (assumed library contract). '
+             'Bounded with an EXACT symbolic DFT (N = 4, 8; n = 3, 5, 6): fas2values / fas2signal reconstruct the padded record except its mean and Nyquist component, Parseval (N = 4), linearity, trailing zeros that do not change N; max_fa_period reports 1/f of a bin of largest |F| for any complex half spectrum with up to 4 bins.',
+        note='The consequences (linearity, Parseval, inverse) are bounded with an exact DFT, not proved for all N; Parseval at N = 8 was dropped for solver budget. Fourier moments / Boore bandwidth are not under contract.',
+        ref='DESIGN.md 7 C06'),
+    'C07': dict(
+        text='Unbounded (symbolic numbers of Fourier and target frequencies): calc_smoothing_matrix_konno_1998, with given and with default targets, with and without a zero-frequency bin: shape (non-zero bins x targets), every entry = raw Konno-Ohmachi weight [sin(b log10(f/fc))/(b log10(f/fc))]^4 (1 on the diagonal f = fc) divided by its column sum, raw weights non-negative, inputs not written. '
+             'Bounded symbolic (n = 3 Fourier frequencies, 1-2 targets; n up to 4, P up to 3 thorough; all real inputs): the direct form calc_smooth_fa_spectrum / generate_smooth_fa_spectrum (explicit targets on and off the grid, default targets, zero bin dropped) equals sum_i |F_i| W_ij / S_j, is the normalised weighted mean, lies within [min, max] of the amplitudes, reproduces a constant, scales linearly; matrix form == direct form with columns summing to 1; bandwidth limits (first/last smoothing frequency whose amplitude reaches ratio*max).',
+        note='Derived precondition (from the code, the column normalisation divides by it): for every target the raw weights do not all vanish. The direct form and the bandwidth functions are bounded, not proved. sin/log10 are uninterpreted with ground identities (A4).',
+        ref='DESIGN.md 7 C07'),
+    'C15': dict(
+        text='Unbounded: generate_gaussian (shape n_d2 x 2 n_d2, rows/columns are the stated Gaussian window of the wrapped frequency offsets) and the dominant-frequency axis of get_max_stockwell_freq / plot helpers (row k of the flipped transform corresponds to frequency index, reported frequency = index/(n dt) of the arg-max row, per column). '
+             'Bounded with an EXACT symbolic DFT (records of length 4, 5, 8; odd lengths truncated to even): transform and transform_w_scipy_fft return the (n/2) x n array whose row for frequency index k is the conjugate discrete S-transform of the record (frequency-domain definition with the Gaussian exp(-2 pi^2 m^2/k^2) wrapped), the two implementations agree, each row sums to the conjugate Fourier coefficient, linear in the record, itransform(transform(x)) = x minus mean and Nyquist component, inputs not written.',
+        note='All statements about the transform values are bounded (exact DFT sizes only), not proved for all n. exp() of the window is an uninterpreted function applied to exact rational arguments (A4).',
+        ref='DESIGN.md 7 C15'),
+    'C16': dict(
+        text='Text is handled in a decimal-text domain (numeric fields symbolic, structure concrete; assumed contracts of open/read/readline/write and np.genfromtxt). Unbounded in (npts, dt): the header line built by the REAL save_values_and_dt expression parses back, through the REAL load_values_and_dt, to a time step within 0.5e-4 of dt for every dt in [1e-4, 100]. '
+             'Bounded (records of 1-3 samples, every |x| <= 1e6, every dt in [1e-4, 100], every scale m): save_values_and_dt / save_signal followed by load_values_and_dt, load_signal (both astypes), load_sig, load_asig (with m, with load_label) returns the requested object type, the same number of points, dt to 4 decimals, values*m to 6 decimals, and the same label for labels with inner blanks, blank edges, the empty label and an ARBITRARY one-line label (symbolic text piece).',
+        note='File system and np.genfromtxt (incl. its header-name sanitiser) are assumed contracts (A2); "%.6f"/"%.4f" are modelled as any integer within 1/2 of x*10^k (ties either way). Records longer than 3 samples are covered only through the per-line structure (bounded). Labels containing line-boundary characters are outside the format.',
+        ref='DESIGN.md 7 C16'),
     'C08': dict(
         text='Unbounded proof (symbolic length, symbolic dt) from the real AST that calc_velo_and_disp_from_accel_arr (both trap branches, float and '
              'int records) returns series of the record length starting at 0 with exactly the trapezoid / rectangle increments, that the '
@@ -90,7 +110,7 @@ CLAIMED = {
         note='Float-only quotient corner (K4) is outside the exact-arithmetic idealisation. resample_to_approx_dt: see evidence.',
         ref='DESIGN.md 7 C14'),
     'C17': dict(
-        text='butter_pass (tuple/list/ndarray cut-offs, band/low/high, every remove_gibbs option): unbounded proof that exactly one butter() and one filtfilt() call is made with the filter type from the None pattern, the cut-off normalised by 0.5/dt, the requested order, '
+        text='butter_pass (tuple/list/ndarray cut-offs, band/low/high, every remove_gibbs option): unbounded proof that exactly one butter() and one filtfilt() call is made with the filter type from the None pattern, the cut-off normalised by 0.5/dt, the requested order, the caller\'s cut-off container left unmodified, '
              'the filtered series = the record or start-mean|record|end-mean padded to 2^(ceil(log2 n)+extra), and that the new values are the filter output at the record positions (length and dt preserved); bad cut-offs raise ValueError. '
              'add_constant/add_series/add_signal: element-wise sum, mismatches rejected with the state untouched (unbounded). remove_poly (object and array level, degree 0..4): residual = record minus the degree-k least-squares polynomial (unbounded); '
              'residual has zero best fit, idempotent, unaffected by adding a polynomial first (bounded, exact rational least squares). running_average: mean of the ORIGINAL samples within floor(w/2) positions (bounded).',
@@ -98,7 +118,7 @@ CLAIMED = {
         ref='DESIGN.md 7 C17'),
     'C18': dict(
         text='combine_at_angle: ns*cos(theta)+we*sin(theta) in degrees, theta=0, 90, theta+180, new signal has ns.dt (unbounded, trig identities A4). compute_rotated: angles span the half circle from the offset and each value is the measure of that combination, '
-             'for the three ways of naming the measure; ValueError when none is given (unbounded in the record length, 3 angles). Cluster.same_start (2-4 signals, every master index) and Cluster.time_match (lags -1, 0, 1 within a window of 2; values stay arrays, lengths unchanged, compared samples coincide): bounded symbolic.',
+             'for the three ways of naming the measure; ValueError when none is given (unbounded in the record length, 3 angles). Cluster.same_start (2-4 signals, every master index) and Cluster.time_match (two and three signals, every lag combination in {-1, 0, 1} within a window of 2, every master position; values stay arrays, lengths unchanged, compared samples coincide): bounded symbolic.',
         note='Cluster clauses are bounded, not proved.',
         ref='DESIGN.md 7 C18'),
     'C19': dict(
